@@ -43,6 +43,9 @@ def run(ctx: RuleContext):
     ctx.sub(check_manual_patches, ctx)
     ctx.sub(check_patch_extent, ctx)
     ctx.sub(check_overrides, ctx)
+    from .c10 import check_all_returns_instrumented
+
+    ctx.sub(check_all_returns_instrumented, ctx, "C18.6")
 
 
 def check_tag(ctx):
